@@ -10,8 +10,10 @@ Read with `ast` from scrapli/channel/{sync_channel,async_channel,base_channel}.p
   * whether `__init__` creates `channel_lock` exactly when `_base_channel_args.channel_lock` is true,
     with threading.Lock / asyncio.Lock;
   * whether anything but `__init__` — any method of the class or of BaseChannel, reachable or not: open(),
-    close(), ... — binds or deletes `channel_lock` (`gen_lock_rebound_*`: the lock object's identity does
-    not survive a re-open; Lock.v layer D).
+    close(), ... — or any code of ANY other module of the package (scrapli/**/*.py: drivers — commandeer(),
+    open(), close() —, factory, transports, ...: `x.channel_lock = ...`, `del`, setattr / delattr) binds or
+    deletes `channel_lock` (`gen_lock_rebound_*`: the lock object's identity does not survive a re-open /
+    a commandeer / ...; Lock.v layer D).
 Anything the translator does not know (statement kinds, other context managers, aliasing of the
 transport or of an I/O method, decorators, recursion between helpers) aborts the generation."""
 import ast
@@ -425,6 +427,92 @@ def lock_rebound(classes):
     return bool(where), where
 
 
+CHANNEL_CLASSES = {"scrapli/channel/base_channel.py": ("BaseChannel",),
+                   "scrapli/channel/sync_channel.py": ("Channel",),
+                   "scrapli/channel/async_channel.py": ("AsyncChannel",)}
+DYNAMIC_CALLS = ("setattr", "delattr", "vars")
+DYNAMIC_ATTRS = ("__dict__", "__setattr__", "__delattr__")
+
+
+def package_modules():
+    root = os.path.join(repo(), "scrapli")
+    out = []
+    for d, dirs, files in os.walk(root):
+        dirs[:] = sorted(x for x in dirs if x != "__pycache__")
+        for f in sorted(files):
+            if f.endswith(".py"):
+                out.append(os.path.relpath(os.path.join(d, f), repo()).replace(os.sep, "/"))
+    if not out:
+        raise Unsupported("package scrapli not found under %s" % repo())
+    return out
+
+
+def names_channel(tree):
+    """does the module name a channel anywhere (identifier / attribute / argument / import containing `channel`)"""
+    for n in ast.walk(tree):
+        if isinstance(n, ast.Name) and "channel" in n.id.lower():
+            return True
+        if isinstance(n, ast.Attribute) and "channel" in n.attr.lower():
+            return True
+        if isinstance(n, ast.arg) and "channel" in n.arg.lower():
+            return True
+        if isinstance(n, ast.ImportFrom) and ("channel" in (n.module or "").lower()
+                                              or any("channel" in a.name.lower() for a in n.names)):
+            return True
+        if isinstance(n, ast.Import) and any("channel" in a.name.lower() for a in n.names):
+            return True
+    return False
+
+
+def package_rebound():
+    """the same question for EVERY module of the package (drivers, factory, transports, ...): does anything
+    outside the three channel classes (those are lock_rebound's) bind / delete an attribute `channel_lock` of
+    any object — `x.channel_lock = ...`, `del x.channel_lock`, augmented / annotated / with-as / for targets
+    (ast Store / Del context), `setattr(x, "channel_lock", ...)` / `delattr(x, "channel_lock")`?  Module level
+    code, functions, methods, nested functions, lambdas: the whole tree.  Returns (bool, [where], n_modules).
+    Indirect ways of setting an attribute (setattr / delattr with a computed name, vars(), __dict__,
+    __setattr__, __delattr__) abort in every module that names a channel anywhere; a module that never names a
+    channel is taken not to reach one."""
+    where = []
+    mods = package_modules()
+    for rel in mods:
+        tree = parse(rel)
+        skip = set()
+        for n in tree.body:
+            if isinstance(n, ast.ClassDef) and n.name in CHANNEL_CLASSES.get(rel, ()):
+                skip.update(id(x) for x in ast.walk(n))
+        handled = set()
+        dynamic = []
+        for n in ast.walk(tree):
+            if id(n) in skip:
+                continue
+            if isinstance(n, ast.Attribute) and n.attr == "channel_lock" and isinstance(n.ctx, (ast.Store, ast.Del)):
+                where.append("%s:%d" % (rel, n.lineno))
+            elif isinstance(n, ast.Call) and isinstance(n.func, (ast.Name, ast.Attribute)):
+                fname = n.func.id if isinstance(n.func, ast.Name) else n.func.attr
+                if fname in ("setattr", "delattr", "__setattr__", "__delattr__"):
+                    handled.add(id(n.func))
+                    cand = n.args[:3]        # setattr(obj, name, v) / obj.__setattr__(name, v) / object.__setattr__(obj, name, v)
+                    lits = [x.value for x in cand if isinstance(x, ast.Constant) and isinstance(x.value, str)]
+                    if "channel_lock" in lits:
+                        where.append("%s:%d" % (rel, n.lineno))
+                    elif not lits or n.keywords or any(isinstance(x, ast.Starred) for x in n.args):
+                        dynamic.append(("%s() with a computed name" % fname, n.lineno))
+                    # (a literal other name: that attribute is not the lock)
+                elif isinstance(n.func, ast.Name) and fname == "vars":
+                    dynamic.append(("vars()", n.lineno))
+        for n in ast.walk(tree):
+            if id(n) in skip or id(n) in handled:
+                continue
+            if isinstance(n, ast.Attribute) and n.attr in DYNAMIC_ATTRS:
+                dynamic.append((n.attr, n.lineno))
+            elif isinstance(n, ast.Name) and n.id in ("setattr", "delattr") and isinstance(n.ctx, ast.Load):
+                dynamic.append(("%s used as a value" % n.id, n.lineno))
+        if dynamic and names_channel(tree):
+            raise Unsupported("%s at %s:%d (a module that names a channel)" % (dynamic[0][0], rel, dynamic[0][1]))
+    return bool(where), where, len(mods)
+
+
 # ---------------------------------------------------------------------------------------------
 def coq_shape(s):
     k = s[0]
@@ -537,6 +625,8 @@ def generate(outdir):
     info = {}
     lines = ["(* generated from the source tree by gen/gen_lock.py — do not edit *)",
              "From Verif Require Import Bytes Lock.", "Open Scope nat_scope.", ""]
+    pkg_rebound, pkg_where, pkg_n = package_rebound()
+    info["package"] = {"modules_scanned": pkg_n, "lock_rebound": pkg_where}
     for stack, rel, cls_name, ctors, deco in (
             ("sync", "scrapli/channel/sync_channel.py", "Channel", ("Lock", "threading.Lock"), "contextmanager"),
             ("async", "scrapli/channel/async_channel.py", "AsyncChannel", ("asyncio.Lock",), "asynccontextmanager")):
@@ -549,8 +639,11 @@ def generate(outdir):
         lines.append("Definition gen_cm_%s : cmsh := %s." % (stack, coq_cm(a["cm"])))
         lines.append("Definition gen_init_ok_%s : bool := %s. (* %s *)" % (stack, "true" if a["init_ok"] else "false", a["init_why"]))
         rebound, where = lock_rebound([base, a["cls"]])
-        lines.append("Definition gen_lock_rebound_%s : bool := %s. (* channel_lock bound outside __init__: %s *)"
-                     % (stack, "true" if rebound else "false", ", ".join(where) or "nowhere"))
+        where = where + pkg_where          # (a binding anywhere else in the package counts for both stacks)
+        rebound = rebound or pkg_rebound
+        lines.append("Definition gen_lock_rebound_%s : bool := %s. (* channel_lock bound outside the channel's __init__ "
+                     "(class bodies + every module of the package, %d modules): %s *)"
+                     % (stack, "true" if rebound else "false", pkg_n, ", ".join(where) or "nowhere"))
         for nme in names:
             s, ds = a["ops"][nme]
             lines.append("Definition gen_%s_%s : shape :=\n  %s." % (stack, nme, coq_shape(s)))
